@@ -2,19 +2,21 @@ import Reduino.Lang.Syntax
 /- Python semantics of the source fragment (big-step, fuel-indexed). -/
 namespace Reduino.Lang.Py
 
-/-- Python expression evaluation: bools are ints in arithmetic and comparisons, `and`/`or` return an OPERAND,
+/-- Python expression evaluation: bools are ints in arithmetic and comparisons (`& | ^` of two bools is a bool), `and`/`or` return an OPERAND,
     `not` returns a bool, evaluation is left to right and short-circuiting. -/
 def eval (s : Store) : Expr → Except Err Val
   | .int n => .ok (.int n)
   | .bool b => .ok (.bool b)
   | .var x => match s.get x with | some v => .ok v | none => .error .nameError
-  | .bin op a b => do let x ← eval s a; let y ← eval s b; pure (.int (op.eval x.toInt y.toInt))
+  | .bin op a b => do let x ← eval s a; let y ← eval s b; op.pyEval x y
   | .neg a => do let x ← eval s a; pure (.int (-x.toInt))
   | .cmp op a b => do let x ← eval s a; let y ← eval s b; pure (.bool (op.eval x.toInt y.toInt))
   | .and a b => do let x ← eval s a; if x.truthy then eval s b else pure x
   | .or a b => do let x ← eval s a; if x.truthy then pure x else eval s b
   | .not a => do let x ← eval s a; pure (.bool (!x.truthy))
   | .ite c a b => do let x ← eval s c; if x.truthy then eval s a else eval s b
+  | .abs a => do let x ← eval s a; pure (.int x.toInt.natAbs)
+  | .mm k a b => do let x ← eval s a; let y ← eval s b; pure (k.pick x y)
 
 inductive Flow where | normal | broke
   deriving DecidableEq, Repr
@@ -42,7 +44,8 @@ def exec : Nat → Stmt → St → Except Err St
     | .aug x op e => do
       let cur ← eval st.store (.var x)
       let v ← eval st.store e
-      pure { st with store := st.store.set x (.int (op.eval cur.toInt v.toInt)) }
+      let r ← op.pyEval cur v
+      pure { st with store := st.store.set x r }
     | .ifs c thn els => do
       let v ← eval st.store c
       if v.truthy then exec fuel thn st else exec fuel els st
